@@ -66,7 +66,7 @@ func cmdManifest(args []string) int {
 			"technique":  m.Technique,
 		})
 	}
-	var na []interface{}
+	na := []interface{}{}
 	for _, id := range ids {
 		if have[id] {
 			continue
@@ -82,7 +82,7 @@ func cmdManifest(args []string) int {
 		"setup_cmd": "./setup.sh",
 		"hooks": map[string]interface{}{
 			"guard":            "verif",
-			"enable":           "harness files and the harness runtime are injected as build-tag-guarded overlay files (go/packages Overlay for the encoder, go test -tags verif -overlay for native replay); nothing is written to /repo",
+			"enable":           "harness files and the harness runtime are injected as build-tag-guarded overlay files (go/packages Overlay for the encoder, go test -tags verif -overlay for native replay); for the cron tick entry the native replay additionally builds a copy of node/cron.go, regenerated from /repo's current source on every run, in which time.Now(), time.AfterFunc( and c.timer.Reset( are textually redirected to the harness runtime's scripted clock and timer (harness/node/INSTRUMENT.json); nothing is written to /repo",
 			"baseline_off_cmd": "cd /repo && GOFLAGS=-mod=mod go test -vet=off -count=1 -timeout 25m ./...",
 			"source_commits":   []string{},
 			"add_only":         true,
